@@ -103,6 +103,15 @@ def origin(b, op):
             dd = b.defs().get(src, [])
             if len(dd) == 1 and dd[0][1] == 'call' and cname(dd[0][2]) == 'next':
                 st = callee_of(dd[0][2]).get('self_ty') or ''
+                # (index, element) pairs: only field 0 of the pair is the position; field 1 is an element of what is enumerated
+                fsel = [q['f'] for q in pl['p'] if isinstance(q, dict) and 'f' in q]
+                if st.startswith('core::iter::adapters::enumerate::Enumerate<') and len(fsel) >= 2 and fsel[1] == 1:
+                    it, itp, itvia = b.op_root(dd[0][2]['args'][0], through=Body.THROUGH + ('enumerate', 'into_iter', 'iter'), stop_named=False)
+                    src_defs = b.defs().get(it, [])
+                    inner = cname(src_defs[0][2]) if len(src_defs) == 1 and src_defs[0][1] == 'call' else None
+                    if inner == 'iter_set_bits' or 'IterSetBits' in st:
+                        return 'other', None, 'iter_set_bits element'
+                    return 'other', None, 'element of what %s enumerates' % st[:60]
                 if st.startswith('core::iter::adapters::enumerate::Enumerate<'):
                     # find what is enumerated: the iterator local's root
                     it, itp, itvia = b.op_root(dd[0][2]['args'][0], through=Body.THROUGH + ('enumerate', 'into_iter', 'iter'),
